@@ -12,7 +12,7 @@ pub struct P;
 pub static C08: P = P;
 
 const NPLACES: usize = 8;
-const NCONTENTS: usize = 6;
+const NCONTENTS: usize = 8;
 const HREFS: [&str; 4] = ["/1", "/2", "/1", "/3"];
 
 fn place(pi: usize, l: N) -> N {
@@ -34,17 +34,32 @@ fn content(ci: usize, c: char) -> Vec<N> {
         2 => vec![ea("img", &[("src", "/9"), ("alt", &c.to_string())], vec![])],
         3 => vec![],
         4 => vec![t(" ")],
-        _ => vec![e("em", vec![e("em", vec![])])],
+        5 => vec![e("em", vec![e("em", vec![])])],
+        // link texts of several words (a soft wrap can fall inside the link)
+        6 => vec![t(&format!("{c}{c}{c} {c}{c}{c}"))],
+        _ => vec![t(&format!("{c} ")), e("em", vec![t(&format!("{c}{c}"))]), t(&format!(" {c}{c}{c}{c}"))],
+    }
+}
+/// Contents used for documents of three or more links (a representative subset keeps the
+/// unit space at (8*5)^k).
+const CONTENTS_MANY: [usize; 5] = [0, 2, 3, 5, 6];
+fn ncontents(k: usize) -> usize {
+    if k <= 2 {
+        NCONTENTS
+    } else {
+        CONTENTS_MANY.len()
     }
 }
 pub fn build_doc(code: u64, k: usize) -> Vec<N> {
     let mut c = code;
     let mut doc = vec![];
+    let nc = ncontents(k);
     for i in 0..k {
         let pi = (c % NPLACES as u64) as usize;
         c /= NPLACES as u64;
-        let ci = (c % NCONTENTS as u64) as usize;
-        c /= NCONTENTS as u64;
+        let ci = (c % nc as u64) as usize;
+        let ci = if k <= 2 { ci } else { CONTENTS_MANY[ci] };
+        c /= nc as u64;
         let letter = (b'a' + i as u8) as char;
         doc.push(place(pi, ea("a", &[("href", HREFS[i % HREFS.len()])], content(ci, letter))));
     }
@@ -233,7 +248,9 @@ impl Scope for S {
         let k = (0..=self.maxk).find(|&k| unit < self.offsets[k + 1]).unwrap();
         let code = unit - self.offsets[k];
         let h = html(&build_doc(code, k));
-        for &w in &self.widths {
+        let all: Vec<usize> = (8..=40).collect();
+        let widths: &Vec<usize> = if k <= 2 { &all } else { &self.widths };
+        for &w in widths {
             for cfg in cfgs() {
                 check(&h, w, &cfg, cx);
             }
@@ -241,8 +258,8 @@ impl Scope for S {
     }
     fn info(&self) -> Info {
         Info {
-            rule: "documents of 0..maxk links, each placed in one of 8 containers (paragraph, list item, quote, heading, table cell, nested table cell, dt, pre) with one of 6 contents (text, em, image, empty, whitespace, deeply empty), repeated targets; x widths x {plain, plain without footnotes, trivial with/without footnotes, rich with footnotes}; non-trivial = >= 2 links with content".into(),
-            bounds: json!({"max_links": self.maxk, "places": NPLACES, "contents": NCONTENTS, "widths": self.widths}),
+            rule: "documents of 0..maxk links, each placed in one of 8 containers (paragraph, list item, quote, heading, table cell, nested table cell, dt, pre) with one of 8 contents (text, em, image, empty, whitespace, deeply empty, two words, three words with em; 5 of them for documents of 3+ links), repeated targets; x widths x {plain, plain without footnotes, trivial with/without footnotes, rich with footnotes}; non-trivial = >= 2 links with content".into(),
+            bounds: json!({"max_links": self.maxk, "places": NPLACES, "contents": NCONTENTS, "widths_3_or_more_links": self.widths, "widths_up_to_2_links": "8..=40"}),
             assumptions: vec!["targets are short (no footnote line wraps at the explored widths)".into()],
         }
     }
@@ -253,9 +270,10 @@ impl Prop for P {
     }
     fn build(&self, tier: Tier) -> Box<dyn Scope> {
         let maxk = tier.pick(3, 4);
+        // (the unit space grows as (8*8)^k; the quick tier keeps k <= 3)
         let mut offsets = vec![0u64];
         for k in 0..=maxk {
-            offsets.push(offsets[k] + ((NPLACES * NCONTENTS) as u64).pow(k as u32));
+            offsets.push(offsets[k] + ((NPLACES * ncontents(k)) as u64).pow(k as u32));
         }
         Box::new(S { maxk, offsets, widths: tier.pick(vec![10, 12, 20, 40], vec![10, 11, 12, 16, 20, 40, 120]) })
     }
